@@ -73,6 +73,7 @@ def run(prop, tier, mode):
     hcases = 2 if tier == "quick" else 8
     tr3 = os.path.join(c.wd, "random_huge.ndjson")
     c.drive(exe, ["--random", "--seed", SEED + 1, "--cases", hcases, "--ops", 20, "--wild", wild, "--huge", 1], tr3, "T-huge", timeout=900)
-    c.validate(SPEC, "TraceFixedString", tcfg, tr3, "T-huge", timeout=1500)
+    # 65536-element sequences need a deeper Java stack in TLC's evaluator
+    c.validate(SPEC, "TraceFixedString", tcfg, tr3, "T-huge", timeout=1500, env={"JAVA_TOOL_OPTIONS": "-Xss512m"})
     c.exhaustive = True
     return c
